@@ -218,9 +218,13 @@ def run(ctx):
         kind, why = ent
         if kind == "must-clear":
             clear_blocks = [bi for bi, (w, m, r) in P.block_effects(b).items() if (PS, "bias_cache") in w]
-            bad = L.must_pass(b, [s[0] for s in sites], clear_blocks)
+            # path-wise: no path entry -> truncation -> return avoids the clear (clearing just before the truncation is as good
+            # as just after it: nothing in between can re-fill the cache — compute_bias is its only filler, C11-R3 writers)
+            pre_reach = b.reachable(0, cut_blocks=clear_blocks)
+            late = [s[0] for s in sites if s[0] in pre_reach]
+            bad = L.must_pass(b, late, clear_blocks) if late else []
             ctx.check(not bad and bool(clear_blocks), "C11-R3", f + ":bias_cache",
-                      "every path from the history truncation to the return clears bias_cache",
+                      "every path through the history truncation to the return clears bias_cache",
                       "%s truncates the lexer stack but a path to the return does not reset bias_cache "
                       "(stale cached mask after rollback)" % f, site=b.where(sites[0][0]))
             rve = [bi for bi, (w, m, r) in P.block_effects(b).items() if (PS, "rows_valid_end") in w]
@@ -291,24 +295,47 @@ def run(ctx):
     if adt is None:
         raise_missing = ctx.violation("C11-R5", "anchor-missing:BiasCache", "struct BiasCache not found")
     else:
-        fields = [f["name"] for f in adt["variants"][0]["fields"]]
-        key_fields = [f for f in fields if f != "mask"]
+        # key = every leaf field of BiasCache other than the mask; a key wrapped in a nested struct of this module
+        # (e.g. `key: BiasCacheKey`) is flattened, and a *derived* `==` on the nested struct compares all of its fields
+        BC = NS + "BiasCache"
+        leaves = []   # (adt, field, group) — group = (outer adt, outer field) of the nested struct or None
+
+        def flatten(adt_id, group, depth=0):
+            a = P.adts.get(adt_id)
+            for f in a["variants"][0]["fields"]:
+                if f["ty"] == "toktrie::svob::SimpleVob":
+                    continue
+                sub = P.adts.get(f["ty"])
+                if sub is not None and sub.get("crate") == a.get("crate") and sub.get("kind") == "struct" and depth < 2:
+                    flatten(f["ty"], (adt_id, f["name"]), depth + 1)
+                else:
+                    leaves.append((adt_id, f["name"], group))
+        flatten(BC, None)
+        key_fields = [l[1] for l in leaves]
         ctx.floor("C11-R5", "BiasCache key fields", len(key_fields), 3)
         # hit return: block cloning cache.mask
         hit = []
         for bi, t in cb.calls():
             if t["f"].get("def", "").endswith("SimpleVob as core::clone::Clone>::clone"):
                 e = cb.expr(t["args"][0])
-                if e[0] in ("ref", "place") and F.place_fields(e[1]) and F.place_fields(e[1])[-1] == (NS + "BiasCache", "mask"):
+                if e[0] in ("ref", "place") and F.place_fields(e[1]) and F.place_fields(e[1])[-1] == (BC, "mask"):
                     hit.append(bi)
+
+        def derived_eq(d):
+            hb = P.bodies.get(d)
+            return hb is not None and bool(hb.rec.get("derived")) and d.endswith("::eq")
         if ctx.floor("C11-R5", "cache-hit return (clone of cache.mask)", len(hit), 1):
-            for kf in key_fields:
-                def cmp_pred(e, kf=kf):
+            for (ad, kf, group) in leaves:
+                def cmp_pred(e, ad=ad, kf=kf, group=group):
+                    xs = ()
                     if e[0] == "bin" and e[1] == "Eq":
-                        return any(L.is_field_read(NS + "BiasCache", kf)(L.strip_wrappers(x)) for x in (e[2], e[3]))
-                    if e[0] == "call" and e[1].endswith("::eq"):
-                        return any(L.is_field_read(NS + "BiasCache", kf)(L.strip_wrappers(x)) for x in e[2])
-                    return False
+                        xs = (e[2], e[3])
+                    elif e[0] == "call" and e[1].endswith("::eq"):
+                        xs = tuple(e[2])
+                        if group is not None and derived_eq(e[1]) and any(L.is_field_read(*group)(L.strip_views(x)) for x in xs):
+                            return True
+                    return any(L.is_field_read(ad, kf)(L.strip_wrappers(x)) and (F.place_fields(x[1])[0][0] != ad or group is None or True) for x in xs
+                               if x[0] in ("place", "ref"))
                 edges = L.guard_edges(cb, cmp_pred, True)
                 still = L.dominated_by_cut(cb, hit, edges) if edges else hit
                 ctx.check(bool(edges) and not still, "C11-R5", "hit-compares:" + kf,
@@ -325,20 +352,21 @@ def run(ctx):
                       "the mask cache %s is reachable with a non-empty start prefix (mask depends on start, key does not)" % nm,
                       site=cb.where(sites[0]) if sites else None)
         # store fills every key field from the same sources as the hit comparison
-        inits = [x for x in L.struct_inits(P, NS + "BiasCache") if x[0].id == cb.id]
+        inits = [x for x in L.struct_inits(P, BC) if x[0].id == cb.id]
         if ctx.floor("C11-R5", "BiasCache store site", len(inits), 1):
-            b_, bi_, fm, _ = inits[0]
-            srcs = {}
-            for kf in key_fields:
-                e = cb.expr(fm[kf])
-                srcs[kf] = F.fmt_expr(e)
             exp_src = {"lexer_state": "lexer_state", "row_idx": "row_idx", "has_pending_lexeme_bytes": "has_pending_lexeme_bytes"}
-            for kf in key_fields:
+            for (ad, kf, group) in leaves:
+                lits = inits if ad == BC else [x for x in L.struct_inits(P, ad) if x[0].id == cb.id]
                 want = exp_src.get(kf)
-                ctx.check(want is None or want in srcs[kf], "C11-R5", "store-source:" + kf,
-                          "store fills %s from %s" % (kf, srcs[kf]),
-                          "the cache store fills key field %s from `%s` (expected a value derived from %s)" % (kf, srcs[kf], want),
-                          site=cb.where(bi_))
+                if not lits:
+                    ctx.violation("C11-R5", "store-source:" + kf, "no literal of %s builds the stored key in compute_bias" % ad, site=cb.where())
+                    continue
+                for (b_, bi_, fm, _) in lits:
+                    src = F.fmt_expr(cb.expr(fm[kf]))
+                    ctx.check(want is None or want in src, "C11-R5", "store-source:" + kf,
+                              "store fills %s from %s" % (kf, src),
+                              "the cache store fills key field %s from `%s` (expected a value derived from %s)" % (kf, src, want),
+                              site=cb.where(bi_))
 
     # ---------------------------------------------------------------- R4 per-token caches
     # Parser::force_bytes is not in this set: TokenParser::is_accepting is `!has_ff_bytes() &&
